@@ -10,6 +10,7 @@ statements quantify over ALL descriptors (any shape, any number of axes, any nes
 of product spaces, any float / rational coordinates).
 -/
 import OdlModel.Lemmas.Spaces
+import OdlModel.Gen.DTypeTables
 
 open OdlModel.Spaces
 
@@ -197,3 +198,185 @@ theorem C20.mem_iff_space_eq (S T X : Space) :
     rw [Space.eqI_iff, Space.eqI_iff, hk]
   simp only [Space.contains]
   cases h1 : X.eqI S <;> cases h2 : X.eqI T <;> simp_all
+
+/-! ## element creation -/
+
+/-- `element_idem`: for every space (tensor, discretized, arbitrarily nested product) and
+every input that already belongs to it (`inp.space == S`), `S.element(inp)` returns `inp`
+itself — no copy, no re-wrapping. -/
+theorem C20.element_idem (T : DTables) (S : Space) (inp : Inp)
+    (h : S.contains inp.space? = true) : S.element T inp = .same := by
+  cases S with
+  | tensor t => simp [Space.element, TSpace.element, h]
+  | discr d => simp [Space.element, Discr.element, h]
+  | prod l w f => simp [Space.element, h]
+
+example : (Space.tensor ⟨[3], .float64, .const .np (.fin 1) (.fin 2)⟩).contains
+    (Inp.elem (.tensor ⟨[3], .float64, .const .np (.fin 1) (.fin 2)⟩) [3] .float64 [1, 2, 3]).space?
+    = true := by decide
+
+/-- Conversely an input that is not in a tensor space is never returned as is: the result is
+an error or a NEW tensor whose dtype and shape are those of the space. -/
+theorem C20.element_new_in_space (T : DTables) (S : TSpace) (forced : Bool) (inp : Inp)
+    (h : (Space.tensor S).contains inp.space? = false ∨ forced = true) :
+    S.element T forced inp = .errValue ∨ S.element T forced inp = .errType ∨
+    ∃ v sm, S.element T forced inp = .tensor S.dtype S.shape v sm := by
+  unfold TSpace.element
+  have hc : ((Space.tensor S).contains inp.space? && !forced) = false := by
+    rcases h with h | h <;> simp [h]
+  rw [hc]
+  simp only [Bool.false_eq_true, if_false]
+  cases hv : inp.view? with
+  | none => cases inp <;> simp
+  | some q =>
+    obtain ⟨nd, sh, dt, v⟩ := q
+    by_cases hs : padShape S.shape.length sh = S.shape
+    · simp [hs]
+    · simp [hs]
+
+/-- `element_shape_error` and `element_values`: an array-like (or foreign element) with view
+`(shape, dtype, values)` offered to a tensor space it is not a member of raises `ValueError`
+iff its shape, left-padded with 1s to the rank of the space (`ndmin`), differs from the
+shape of the space; otherwise the new element holds exactly the input values converted to
+the dtype of the space, and shares memory only if the input is an ndarray of that dtype. -/
+theorem C20.element_values (T : DTables) (S : TSpace) (inp : Inp) (nd : Bool) (sh : List Nat)
+    (dt : DType) (v : List Rat) (hm : (Space.tensor S).contains inp.space? = false)
+    (hv : inp.view? = some (nd, sh, dt, v)) :
+    (padShape S.shape.length sh ≠ S.shape → S.element T false inp = .errValue) ∧
+    (padShape S.shape.length sh = S.shape →
+      S.element T false inp =
+        .tensor S.dtype S.shape (v.map (castVal T S.dtype)) (nd && decide (dt = S.dtype))) := by
+  unfold TSpace.element
+  simp [hm, hv]
+
+example : (⟨[1, 3], .float64, .const .np (.fin 1) (.fin 2)⟩ : TSpace).element
+    OdlModel.Gen.DTypes.tables false (.arr true [3] .float32 [1, 2, 3]) =
+    .tensor .float64 [1, 3] [1, 2, 3] false := by
+  rfl
+
+/-- Conversion to the dtype of the space is idempotent (converting twice changes nothing),
+so `element(element(x))`-style round trips are stable. -/
+theorem C20.castVal_idem (T : DTables) (d : DType) (r : Rat) :
+    castVal T d (castVal T d r) = castVal T d r := by
+  unfold castVal
+  by_cases hb : d = .bool
+  · simp [hb]
+  · simp only [hb, if_false]
+    by_cases hi : T.isInt d = true
+    · simp only [hi, if_true]
+      unfold truncRat
+      by_cases hr : r < 0
+      · simp only [hr, if_true]
+        by_cases h2 : (-(((-r).floor : Int) : Rat)) < 0
+        · simp [h2, Rat.floor_intCast]
+        · simp only [h2, if_false]
+          have : (((-r).floor : Int) : Rat) = 0 ∨ True := Or.inr trivial
+          simp [Rat.floor_intCast, ← Rat.intCast_neg]
+      · simp only [hr, if_false]
+        by_cases h2 : ((r.floor : Int) : Rat) < 0
+        · simp [h2, Rat.floor_intCast, ← Rat.intCast_neg]
+        · simp [h2, Rat.floor_intCast]
+    · simp [hi]
+
+/-- `ProductSpace.element`: a sequence of the wrong length raises `ValueError`; a sequence of
+the right length whose items all belong to the respective components is wrapped as is. -/
+theorem C20.pspace_element_length (T : DTables) (l : List Space) (w : Weighting) (f : Fld)
+    (inp : Inp) (ps : List Inp) (hm : (Space.prod l w f).contains inp.space? = false)
+    (hp : inp.parts? = some ps) :
+    (ps.length ≠ l.length → (Space.prod l w f).element T inp = .errValue) ∧
+    (ps.length = l.length → Space.allMember l ps = true →
+      (Space.prod l w f).element T inp = .prod true []) := by
+  simp only [Space.element, hm, hp, Bool.false_eq_true, if_false]
+  constructor
+  · intro h1; simp [h1]
+  · intro h1 h2; simp [h1, h2]
+
+/-! ## derived spaces -/
+
+/-- `astype_descr`: whenever `space.astype(dtype)` returns, the shape is unchanged, the dtype
+is the requested one, and for floating-point targets the weighting OBJECT (hence constant /
+array identity / callable and exponent) is the one of the original space. -/
+theorem C20.astype_descr (T : DTables) (t r : TSpace) (dt : DType) (ok : Bool)
+    (h : t.astype T dt ok = some r) :
+    r.shape = t.shape ∧ r.dtype = dt ∧ (T.isFloating dt = true → r.w = t.w) ∧
+    (dt = t.dtype → r = t) := by
+  unfold TSpace.astype at h
+  split at h
+  · next h1 => cases h; simp [h1]
+  · next h1 =>
+    split at h
+    · cases h
+    · split at h
+      · next h3 =>
+        split at h
+        · split at h
+          · cases h; simp [h1]
+          · cases h
+        · cases h; simp [h1]
+      · next h3 => cases h; simp [h1, h3]
+
+/-- `real_complex_descr` (involution), re-checked against the dtype tables regenerated from
+the live `odl.util.utility`: for the exact real/complex pairs float32/complex64,
+float64/complex128, float128/complex256 the round trips `real_space.complex_space` and
+`complex_space.real_space` give back the original descriptor (shape, dtype, weighting object,
+exponent), for every shape and weighting. -/
+theorem C20.real_complex_involution (t : TSpace) :
+    (t.dtype = .float32 ∨ t.dtype = .float64 ∨ t.dtype = .float128 →
+      (t.complexSpace OdlModel.Gen.DTypes.tables true).bind
+        (·.realSpace OdlModel.Gen.DTypes.tables true) = some t) ∧
+    (t.dtype = .complex64 ∨ t.dtype = .complex128 ∨ t.dtype = .complex256 →
+      (t.realSpace OdlModel.Gen.DTypes.tables true).bind
+        (·.complexSpace OdlModel.Gen.DTypes.tables true) = some t) := by
+  obtain ⟨sh, d, w⟩ := t
+  constructor <;> rintro (h | h | h) <;> simp only at h <;> subst h <;>
+    cases w <;> rfl
+
+/-- `float16` is NOT part of an exact pair in the live tables (`float16 → complex64 →
+float32`): the round trip changes the dtype.  (Shows the hypothesis above is sharp.) -/
+theorem C20.real_complex_float16_not_involutive :
+    let t : TSpace := ⟨[3], .float16, defaultW .np⟩
+    (t.complexSpace OdlModel.Gen.DTypes.tables true).bind
+      (·.realSpace OdlModel.Gen.DTypes.tables true) = some ⟨[3], .float32, defaultW .np⟩ := by
+  decide
+
+/-- `byaxis_descr`: `space.byaxis[i]`, `[slice]`, `[list]` has exactly the selected shape
+entries, the same dtype and the same weighting object (non-array weightings). -/
+theorem C20.byaxis_descr (t r : TSpace) (idx : PIdx) (h : t.byaxis idx = some r) :
+    r.dtype = t.dtype ∧ r.w = t.w ∧
+    (match idx with
+     | .int i => t.shape[i]? = some (r.shape.headD 0) ∧ r.shape.length = 1
+     | .slice s => r.shape = selSlice t.shape s
+     | .list l => selList t.shape l = some r.shape) := by
+  cases idx with
+  | int i =>
+    simp only [TSpace.byaxis, Option.map_eq_some_iff] at h
+    obtain ⟨n, hn, rfl⟩ := h
+    simp [hn]
+  | slice s => simp only [TSpace.byaxis, Option.some.injEq] at h; subst h; simp
+  | list l =>
+    simp only [TSpace.byaxis, Option.map_eq_some_iff] at h
+    obtain ⟨sh, hs, rfl⟩ := h
+    simp [hs]
+
+/- FULL STATEMENT (false for the code as it exists): the weighting and exponent of `P[idx]`
+   are those of `P` restricted to the selection. -/
+/-- `pspace_index_descr`: `P[i]` is the i-th component; `P[slice]` / `P[list]` is the product of
+exactly the selected components with the field of `P`.  Its weighting is the one of `P` only
+when `P` is unweighted with exponent 2 (finding C20-F4: weighting and exponent are dropped). -/
+theorem C20.pspace_index_descr_partial (l : List Space) (w : Weighting) (f : Fld) :
+    (∀ i, (Space.prod l w f).pindex (.int i) = l[i]?) ∧
+    (∀ s, (Space.prod l w f).pindex (.slice s) = some (.prod (selSlice l s) (defaultW .ps) f)) ∧
+    (∀ idx sel, selList l idx = some sel →
+      (Space.prod l w f).pindex (.list idx) = some (.prod sel (defaultW .ps) f)) ∧
+    (w = defaultW .ps → ∀ s, (Space.prod l w f).pindex (.slice s) = some (.prod (selSlice l s) w f)) := by
+  refine ⟨fun _ => rfl, fun _ => rfl, ?_, ?_⟩
+  · intro idx sel h; simp [Space.pindex, h, mkProdF]
+  · intro h s; subst h; rfl
+
+/-- Counterexample (finding C20-F4) on the model of the current code: slicing a product space
+weighted by 2 with exponent 1 yields an unweighted exponent-2 space. -/
+theorem C20.pspace_index_drops_weighting_fails :
+    let r2 : Space := .tensor ⟨[2], .float64, defaultW .np⟩
+    (Space.prod [r2, r2, r2] (.const .ps (.fin 2) (.fin 1)) .real).pindex (.slice ⟨1, 2, 1⟩) =
+      some (.prod [r2, r2] (.const .ps (.fin 1) (.fin 2)) .real) := by
+  rfl
